@@ -16,10 +16,20 @@ sys.path.insert(0, os.path.dirname(os.path.dirname(os.path.abspath(__file__))))
 from pyvc.task import run_task  # noqa: E402
 
 
+def _props_of(task):
+    try:
+        from contracts.property_map import props_of
+
+        return props_of(task.name, task.props)
+    except Exception:
+        return list(task.props)
+
+
 def _run_one(args):
     modname, idx = args
     mod = importlib.import_module(modname)
     task = mod.tasks()[idx]
+    task.props = _props_of(task)  # own properties + dependency closure (contracts/property_map.py)
     try:
         return run_task(task)
     except Exception:
@@ -35,7 +45,7 @@ def run_modules(modnames, flt=None, props=None, jobs=12):
         for i, t in enumerate(mod.tasks()):
             if flt and flt not in t.name:
                 continue
-            if props and not (set(props) & set(t.props)):
+            if props and not (set(props) & set(_props_of(t))):
                 continue
             work.append((m, i))
     if jobs <= 1 or len(work) <= 1:
